@@ -1,4 +1,5 @@
 import Harper.Lemmas.Effects
+import Harper.Lemmas.ConfigPaths
 /-!
 # C10 — the text being checked never leaves the machine
 
@@ -107,5 +108,103 @@ example :
       [[['c']], [['c'], ['u']], [['d'], ['f']], [['d'], ['f'], ['h', '%', 'x', '%']], [['d']], [['d'], ['s']]] ∧
     (traceAll P h).contains (.listen [127, 0, 0, 1] 4000) = true := by
   decide
+
+/-! ## from the configured STRING to the path that is written -/
+
+/-- `~/rest` is the home directory followed by `rest` -/
+theorem tilde_expands (home cwd : Path) (rest : List Char) :
+    resolvePath home cwd ('~' :: '/' :: rest) = home ++ components rest := by
+  simp [resolvePath, components_cons_slash]
+
+/-- `~` alone is the home directory -/
+theorem tilde_alone (home cwd : Path) : resolvePath home cwd ['~'] = home := by
+  simp [resolvePath, components, splitSlash]
+
+/-- an absolute path is unchanged, whatever home and current directory are -/
+theorem absolute_unchanged (home cwd : Path) (p : List Char) :
+    resolvePath home cwd ('/' :: p) = components p := by
+  simp [resolvePath, components_cons_slash]
+
+/-- **Writes are confined to the RESOLVED configured paths.** For every environment, current
+directory and settings object the server accepts, every path a handler creates, truncates, appends
+to or makes directories for is: the resolution (`resolvePath`, i.e. `~` expanded, relative paths
+joined to the current directory) of the configured `userDictPath`, or a default file
+(`Config::default()`: user dictionary, statistics file), or the directory containing one of them;
+or the resolution of the configured `fileDictPath` / `statsPath` (or the default dictionary
+directory), its parent, or a direct child of it named by ONE path component (`file_dict_name`). -/
+theorem resolved_paths_confined (e : DirsEnv) (cwd : Path) (c : PathCfg) (P : Paths)
+    (hP : fromLspConfig e cwd c = some P) (h : List Entry) :
+    ∀ ev ∈ traceAll P h, ∀ p, ev.written = some p → AllowedWrite e cwd c p := by
+  intro ev hev p hp
+  obtain ⟨hU, hF, hS⟩ := fromLspConfig_fields hP
+  have hUfile : ConfiguredFile e cwd c P.userDict := by
+    rcases hU with h | ⟨s, h1, h2⟩
+    · exact Or.inl h
+    · exact Or.inr (Or.inr ⟨s, h1, h2⟩)
+  have hSfile : ConfiguredFile e cwd c P.stats := Or.inr (Or.inl hS)
+  rcases writes_confined_to_configured P h ev hev p hp with h1 | h1 | h1 | h1 | h1 | h1 | ⟨n, hn1, hn2, h1⟩
+  · exact Or.inl ⟨_, hUfile, Or.inl h1⟩
+  · exact Or.inl ⟨_, hUfile, Or.inr h1⟩
+  · exact Or.inl ⟨_, hSfile, Or.inl h1⟩
+  · exact Or.inl ⟨_, hSfile, Or.inr h1⟩
+  · exact Or.inr ⟨_, hF, Or.inl h1⟩
+  · exact Or.inr ⟨_, hF, Or.inr (Or.inl h1)⟩
+  · exact Or.inr ⟨_, hF, Or.inr (Or.inr ⟨n, hn1, hn2, h1⟩)⟩
+
+/-! ### non-vacuity, the quirks, and why tilde expansion matters -/
+
+def envH : DirsEnv := ⟨[['h']], none, none⟩
+def cwdW : Path := [['w']]
+/-- `{"userDictPath": "~/d", "fileDictPath": "r/f", "statsPath": "/a/s"}` -/
+def cfgMixed : PathCfg :=
+  ⟨some (.str ['~', '/', 'd']), some (.str ['r', '/', 'f']), some (.str ['/', 'a', '/', 's'])⟩
+
+/-- accepted; `~/d` ↦ `/h/d`; the `statsPath` value wins the file-dictionary directory (quirk) and
+the statistics file stays at its default -/
+example : (fromLspConfig envH cwdW cfgMixed).map (fun P => (P.userDict, P.fileDir, P.stats)) =
+    some ([['h'], ['d']], [['a'], ['s']], (defaultPaths envH).stats) := by
+  decide
+
+/-- relative ↦ below the current directory; `~user` is NOT expanded; an empty `userDictPath`
+keeps the default but an empty `statsPath` makes the current directory the dictionary directory;
+a non-string value rejects the configuration -/
+example : resolvePath [['h']] [['w']] ['r', '/', '.', '/', 'f'] = [['w'], ['r'], ['f']] := by decide
+example : resolvePath [['h']] [['w']] ['~', 'u', '/', 'x'] = [['w'], ['~', 'u'], ['x']] := by decide
+example : resolvePath [['h']] [['w']] ['.', '.', '/', 'x'] = [['w'], ['.', '.'], ['x']] := by decide
+example : (fromLspConfig envH cwdW ⟨some (.str []), none, some (.str [])⟩).map (fun P => (P.userDict, P.fileDir)) =
+    some ((defaultPaths envH).userDict, [['w']]) := by decide
+example : fromLspConfig envH cwdW ⟨none, some .other, none⟩ = none := by decide
+/-- `dirs`: an XDG variable counts only when it is an absolute path -/
+example : configDir ⟨[['h']], some ['/', 'x'], none⟩ = [['x']] ∧
+    configDir ⟨[['h']], some ['x'], none⟩ = configDir ⟨[['h']], none, none⟩ ∧
+    (configDir ⟨[['h']], none, none⟩).length = 2 := by decide
+
+/-- **A resolver that does not expand `~` breaks confinement.** With `"userDictPath": "~/d"`, home
+`/h`, current directory `/w`: `std::path::absolute`-style resolution yields `/w/~/d`; a server using
+it creates that file on `HarperAddToUserDict` (first conjunct: it is in the trace), and that path
+is NOT an allowed write for this configuration (second conjunct) — the configured dictionary
+`/h/d` is (third). -/
+example :
+    let c : PathCfg := ⟨some (.str ['~', '/', 'd']), none, none⟩
+    let bad := absoluteOnly cwdW ['~', '/', 'd']
+    let P' : Paths := { defaultPaths envH with userDict := bad }
+    Eff.createFile [['w'], ['~'], ['d']] ∈ trace P' (.addUser ['/', 'x'] false false) ∧
+    ¬ AllowedWrite envH cwdW c bad ∧
+    AllowedWrite envH cwdW c [['h'], ['d']] := by
+  refine ⟨by decide, ?_, ?_⟩
+  · intro h
+    rcases h with ⟨q, hq, hp⟩ | ⟨d, hd, hp⟩
+    · rcases hq with rfl | rfl | ⟨s, hs, rfl⟩
+      · revert hp; decide
+      · revert hp; decide
+      · simp at hs; subst hs; revert hp; decide
+    · rcases hd with rfl | ⟨s, hs, rfl⟩
+      · rcases hp with hp | hp | ⟨n, _, _, hp⟩
+        · revert hp; decide
+        · revert hp; decide
+        · have := congrArg List.length hp
+          simp [absoluteOnly, cwdW, components, splitSlash, defaultPaths, dataDir, xdgOr, envH] at this
+      · simp at hs
+  · exact Or.inl ⟨[['h'], ['d']], Or.inr (Or.inr ⟨['~', '/', 'd'], rfl, by decide⟩), Or.inl rfl⟩
 
 end Harper.C10
